@@ -376,6 +376,7 @@ def program(r, size=3):
 # stage 14: computed callees  mk(e)(a)  and lambdas called where they are written.
 # stage 15: `ret` of a function value as the last statement of a function that returns a function.
 # stage 16: early returns of function values: guards `if c do ret <function value> end` before the last statement.
+# stage 17: mutable variables that hold functions, assigned other functions (`h := f`, `h = g`, `h(x)`).
 
 class FragGen:
     def __init__(self, r, stage=1):
@@ -641,6 +642,26 @@ class FragGen:
                 env["funs"].append((al, 1))
             for _ in range(r.randint(1, 2)):
                 out.append("%sprint(%s(%s))" % (pad, r.choice([f for f, k in env["funs"] if k == 1]), self.int_expr(env, 1)))
+        if self.stage >= 17:
+            # stage 4l: a mutable variable of function type: defined, called, assigned (a name, a call that returns a
+            # function, a lambda), called again; the local functions defined later capture it
+            def fval():
+                one = [f0 for f0, k0 in env["funs"] if k0 == 1]
+                ch = r.random()
+                if ch < 0.4 and one:
+                    return r.choice(one)
+                if ch < 0.7 and env.get("makers"):
+                    return "%s(%s)" % (r.choice(env["makers"]), r.choice(env["ints"] + [str(r.randint(0, 9))]))
+                w = self.fresh("w")
+                return "fn %s: int -> int do\n%s(%s %s %s)\n%send" % (w, pad + "  ", w, r.choice(["+", "-", "*"]), r.choice(env["ints"] + [str(r.randint(0, 9))]), pad)
+            mh = self.fresh("mh")
+            out.append("%s%s := %s" % (pad, mh, fval()))
+            out.append("%sprint(%s(%s))" % (pad, mh, self.int_expr(env, 0)))
+            for _ in range(r.randint(1, 2)):
+                out.append("%s%s = %s" % (pad, mh, fval()))
+                out.append("%sprint(%s(%s))" % (pad, mh, self.int_expr(env, 1)))
+            env["funs"].append((mh, 1))
+            env.setdefault("mfuns", []).append(mh)
         if self.stage >= 12 and env.get("makers") and env.get("hofs"):
             for _ in range(r.randint(1, 2)):
                 h, n = r.choice(env["hofs"])
@@ -664,6 +685,11 @@ class FragGen:
             out += self.block(env, 1, ind, r.randint(0, 2))
             out.append("%s%s %s %s" % (pad, r.choice(env["muts"]), r.choice(["=", "+=", "-="]), self.int_expr(env, 0)))
             out.append("%sprint(%s(%s))" % (pad, lf, ", ".join(self.int_expr(env, 0) for _ in range(nparams))))
+            if self.stage >= 17 and env.get("mfuns") and nparams == 1 and r.random() < 0.6:
+                mh = r.choice(env["mfuns"])
+                if not any(mh in ln for ln in out[-12:] if lf in ln):
+                    out.append("%s%s = %s" % (pad, mh, lf))
+                    out.append("%sprint(%s(%s))" % (pad, mh, self.int_expr(env, 0)))
             if self.stage >= 10 and env.get("hofs") and nparams == 1:
                 h, n = r.choice(env["hofs"])
                 out.append("%sprint(%s(%s))" % (pad, h, ", ".join([lf] + [self.int_expr(env, 0) for _ in range(n)])))
